@@ -31,6 +31,7 @@ import (
 	"github.com/NethermindEth/juno/utils/log"
 
 	"jsim/chaingen"
+	"jsim/faultdb"
 	"jsim/harness/node"
 	"jsim/sim"
 )
@@ -257,6 +258,31 @@ func (w *World) SetL1Head(n uint64) {
 	w.c.Must(w.N.BC.SetL1Head(h), "SetL1Head")
 	w.M.L1Head = h
 	w.L1Moves++
+}
+
+// SetL1HeadFailing attempts to record an L1 head while the database write fails (injected): the call
+// must report the error and nothing is recorded - finality keeps following the recorded head.
+func (w *World) SetL1HeadFailing(n uint64) {
+	h := &core.L1Head{BlockNumber: n, BlockHash: felt.NewFromUint64[felt.Felt](0x11ead0000 + n), StateRoot: felt.NewFromUint64[felt.Felt](0x11ead1000 + n)}
+	if int(n) < len(w.M.Chain) {
+		b := w.M.Chain[n]
+		h = &core.L1Head{BlockNumber: n, BlockHash: b.B.Hash, StateRoot: b.B.GlobalStateRoot}
+	}
+	w.c.Logf("set L1 head to block %d while the database write fails", n)
+	w.N.FDB.Plan.FailWriteAt = w.N.FDB.Writes + 1
+	err := w.N.BC.SetL1Head(h)
+	w.N.FDB.Plan.FailWriteAt = 0
+	if err == nil {
+		// nothing was written through the wrapper (should not happen): the head is recorded
+		w.M.L1Head = h
+		w.L1Moves++
+		return
+	}
+	if !faultdb.IsInjected(err) {
+		w.c.Broken("SetL1Head with a failing write: %v", err)
+	}
+	w.N.FDB.Fired = nil
+	w.c.Fault("l1head_write_error")
 }
 
 // RevertedOnly: reverted blocks whose hash is not canonical (sorted by insertion order, stable).
